@@ -246,15 +246,65 @@ def _is_nonempty_test(test, expr):
 def _warns_loop_bound(fn, logs_expr):
     """is there `if <logs_expr>.bounded_loops [is non-empty]: warn_code(LOOP_BOUND, ...)` at the top level of fn
     (not nested in a loop / try / other condition)"""
-    for st in fn.body:
-        if isinstance(st, ast.If) and _is_nonempty_test(st.test, f"{logs_expr}.bounded_loops") and not st.orelse:
-            if _contains(st.body, lambda n: isinstance(n, ast.Call) and ast.unparse(n.func) == "warn_code" and n.args and ast.unparse(n.args[0]) == "LOOP_BOUND"):
-                return True
-    return False
+    return any(_is_loop_bound_warning(st, logs_expr) for st in fn.body)
 
 
 def _mentions(fn, word):
     return any(isinstance(n, ast.Attribute) and n.attr == word for n in ast.walk(fn))
+
+
+def _is_loop_bound_warning(st, logs_expr):
+    return (isinstance(st, ast.If) and _is_nonempty_test(st.test, f"{logs_expr}.bounded_loops") and not st.orelse
+            and _contains(st.body, lambda n: isinstance(n, ast.Call) and ast.unparse(n.func) == "warn_code" and n.args
+                          and ast.unparse(n.args[0]) == "LOOP_BOUND" and not _dedup_kw(n)))
+
+
+def _dedup_kw(call):
+    """does the logging call ask for de-duplication (allow_duplicate=<anything but True>)"""
+    for k in call.keywords:
+        if k.arg == "allow_duplicate" and not (isinstance(k.value, ast.Constant) and k.value.value is True):
+            return True
+    return len(call.args) > 2
+
+
+def _target_warns_loop_bound(fn):
+    """run_target_function explores one target transaction with a PRIVATE SEVM (`<s> = SEVM(...)`), inside
+    a try/finally.  Its bounded-loop log reaches the user iff, in that try body, AFTER the statement
+    `yield from <s>.run_message(...)` (the generator has been drained: every path of the transaction has
+    been explored) and at the same nesting level (unconditionally), there is
+    `if <s>.logs.bounded_loops: warn_code(LOOP_BOUND, ...)` (not de-duplicated).
+    Any other mention of `bounded_loops` / `.logs` in the function is not understood: fail closed."""
+    tries = [st for st in fn.body if isinstance(st, ast.Try)]
+    if len(tries) != 1 or len(fn.body) != 1 + (1 if ast.get_docstring(fn) else 0):
+        raise TranslateError("run_target_function: expected a single try/finally as the body")
+    body = tries[0].body
+    if tries[0].handlers or tries[0].orelse:
+        raise TranslateError("run_target_function: the try has except/else clauses (a swallowed exception would skip the warning)")
+    sevms = [st.targets[0].id for st in body if isinstance(st, ast.Assign) and len(st.targets) == 1 and isinstance(st.targets[0], ast.Name)
+             and isinstance(st.value, ast.Call) and ast.unparse(st.value.func) == "SEVM"]
+    if len(sevms) != 1:
+        raise TranslateError(f"run_target_function: expected exactly one `<s> = SEVM(...)`, found {sevms}")
+    s = sevms[0]
+    runs = [i for i, st in enumerate(body) if isinstance(st, ast.Expr) and isinstance(st.value, ast.YieldFrom)
+            and _calls(st.value.value, f"{s}.run_message")]
+    if len(runs) != 1:
+        raise TranslateError(f"run_target_function: expected exactly one top-level `yield from {s}.run_message(...)` in the try body")
+    # no other way out of the try body between the run and the warning
+    warns = [i for i, st in enumerate(body) if _is_loop_bound_warning(st, f"{s}.logs")]
+    n_mentions = sum(1 for n in ast.walk(fn) if isinstance(n, ast.Attribute) and n.attr == "bounded_loops")
+    if not warns:
+        if n_mentions or _mentions(fn, "logs"):
+            raise TranslateError("run_target_function: mentions logs / bounded_loops but not in the recognised `if <s>.logs.bounded_loops: warn_code(LOOP_BOUND, ...)` form")
+        return False
+    if len(warns) != 1:
+        raise TranslateError("run_target_function: more than one LOOP_BOUND warning")
+    w = warns[0]
+    if w < runs[0]:
+        raise TranslateError("run_target_function: the LOOP_BOUND warning precedes the exploration of the transaction (the log is still empty)")
+    for st in body[runs[0] + 1:w]:
+        if _contains([st], lambda n: isinstance(n, (ast.Return, ast.Raise, ast.Break, ast.Continue)) or (isinstance(n, ast.Assign) and any(ast.unparse(t).startswith(s) for t in n.targets))):
+            raise TranslateError("run_target_function: control may leave (or the SEVM is replaced) between the exploration and the LOOP_BOUND warning")
+    return True
 
 
 def translate(src_text):
@@ -268,7 +318,7 @@ def translate(src_text):
     logs_names = [st.targets[0].id for st in run_test.body if isinstance(st, ast.Assign) and len(st.targets) == 1 and isinstance(st.targets[0], ast.Name) and ast.unparse(st.value) == "sevm.logs"]
     test_warns = any(_warns_loop_bound(run_test, x) for x in logs_names + ["sevm.logs"])
     setup_warns = _warns_loop_bound(setup, "sevm.logs")
-    target_warns = _mentions(target, "bounded_loops") or _mentions(target, "logs")
+    target_warns = _target_warns_loop_bound(target)
     info = {"exitcodes": codes, "test_warns": test_warns, "setup_warns": setup_warns, "target_warns": target_warns}
     b = lambda x: "true" if x else "false"  # noqa: E731
     lines = [
